@@ -88,6 +88,8 @@ def canon(toks):
         if t.k == 'ident':
             out.append(('i', t.v if isinstance(t.v, str) else repr(t.v)))
         elif t.k == 'punct':
+            if t.v == ';' and out and out[-1][0] == 'g' and out[-1][1] == '{}':
+                continue        # `if .. {..} ;` : prettyplease drops the empty statement; dropped on both sides
             for ch in t.v:
                 out.append(('p', ch))
         elif t.k == 'group':
